@@ -55,6 +55,35 @@ def one(seed):
     return out
 
 
+
+def write_table(head, vhead):
+    """TABLE.md from the meta.json of *every* stored seed (its last evaluation), not only the ones evaluated in this run"""
+    rows = []
+    for seed in sorted(os.listdir(SEEDED)):
+        mp = os.path.join(SEEDED, seed, "meta.json")
+        if not os.path.exists(mp):
+            continue
+        meta = json.load(open(mp))
+        cur = meta.get("current_tree", {})
+        target = meta["property"]
+        first = ""
+        cf = cur.get("checks_fired", {})
+        if target in cf and cf[target].get("keys"):
+            first = cf[target]["keys"][0]
+        fs = meta.get("first_shot")
+        rows.append((seed, target, meta.get("round", 1), "-" if fs is None else ("yes" if fs.get("detected_by_target_property") else "no (" + (",".join(fs.get("detected_by", [])) or "none") + ")"),
+                     cur.get("applies"), cur.get("detected_by_target_property"), ",".join(cur.get("detected_by", [])), first, (meta.get("summary") or "")[:170]))
+    with open(os.path.join(SEEDED, "TABLE.md"), "w") as f:
+        f.write("# Seeded changes and the checks that report them\n\nLast re-evaluation by tools/reeval_seeds.py: repo HEAD %s, /verif %s.  `all checks that fire` lists the properties whose check "
+                "exits 1 with a VIOLATION that is absent on the clean tree.  Round 1 seeds were used to strengthen the checks as they arrived; round 2 seeds were first run against "
+                "the checks as they stood (`first shot`: did the target property's check fire, and if not which checks did) and only then used to strengthen them.\n\n" % (head, vhead))
+        f.write("| seed | breaks | round | first shot | applies | target check fires now | all checks that fire now | first key reported by the target check | change |\n|---|---|---|---|---|---|---|---|---|\n")
+        for row in rows:
+            f.write("| %s | %s | %s | %s | %s | %s | %s | `%s` | %s |\n" % tuple(str(x).replace("|", "\\|") for x in row))
+    r2 = [r for r in rows if r[2] == 2]
+    return rows, r2
+
+
 def main(argv):
     jobs = 6
     if "--jobs" in argv:
@@ -95,12 +124,7 @@ def main(argv):
         if r["applies"] and target in cur["checks_fired"] and cur["checks_fired"][target].get("keys"):
             first = cur["checks_fired"][target]["keys"][0]
         rows.append((seed, target, cur.get("applies"), cur.get("detected_by_target_property"), ",".join(cur.get("detected_by", [])), first, meta.get("summary", "")[:160]))
-    with open(os.path.join(SEEDED, "TABLE.md"), "w") as f:
-        f.write("# Seeded changes and the checks that report them\n\nRe-evaluated by tools/reeval_seeds.py on repo HEAD %s with /verif %s. "
-                "`fired` lists the properties whose check exits 1 with a VIOLATION that is absent on the clean tree.\n\n" % (head, vhead))
-        f.write("| seed | breaks | applies | target check fires | all checks that fire | first key reported by the target check | change |\n|---|---|---|---|---|---|---|\n")
-        for row in rows:
-            f.write("| %s | %s | %s | %s | %s | `%s` | %s |\n" % tuple(str(x).replace("|", "\\|") for x in row))
+    write_table(head, vhead)
     for row in rows:
         print("%-7s target=%s applies=%s target_fires=%s by=%s" % row[:5])
     missed = [r for r in rows if r[2] and not r[3]]
